@@ -9,20 +9,11 @@
 //!   there as little-endian f64 (for the exhaustive accuracy oracle; the model ignores the path).
 //! `digamma` recurses once per unit step below 6, so requests with x < -100000 (or -inf) are refused as
 //! `! diverged` here and in the model (the real function would overflow the stack / never return).
-//! `erf(NaN)` recurses forever (`x >= 0.` and `-x >= 0.` are both false) until the stack overflows and the process
-//! aborts; such a request is refused as `! diverged` too (the model's `erfF` runs out of fuel there).
+//! `erf` branches on the sign bit since repair F56: every argument (NaN and both zeros included) is evaluated.
 use compute::functions::{beta, digamma, erf, gamma, ln_gamma};
 use cvexec::*;
 
 const DIGAMMA_MIN: f64 = -100000.0;
-
-fn er(x: f64) -> Option<f64> {
-    if x.is_nan() {
-        None
-    } else {
-        Some(erf(x))
-    }
-}
 
 fn dg(x: f64) -> Option<f64> {
     if x < DIGAMMA_MIN {
@@ -41,10 +32,7 @@ fn step(_: &mut (), t: &mut Toks) -> R<String> {
             let y = match op {
                 "gamma" => gamma(x),
                 "lngamma" => ln_gamma(x),
-                "erf" => match er(x) {
-                    Some(y) => y,
-                    None => return Ok("! diverged".to_string()),
-                },
+                "erf" => erf(x),
                 _ => match dg(x) {
                     Some(y) => y,
                     None => return Ok("! diverged".to_string()),
@@ -66,10 +54,7 @@ fn step(_: &mut (), t: &mut Toks) -> R<String> {
                 ys.push(match op {
                     "gammav" => gamma(x),
                     "lngammav" => ln_gamma(x),
-                    "erfv" => match er(x) {
-                        Some(y) => y,
-                        None => return Ok("! diverged".to_string()),
-                    },
+                    "erfv" => erf(x),
                     _ => match dg(x) {
                         Some(y) => y,
                         None => return Ok("! diverged".to_string()),
